@@ -49,9 +49,11 @@ InputOK(H, inp, src) == inp.t = "emb" /\ src # "none" => inp.stamp = H[src]
    generator builds into the world: does the entry really belong to the owner?                       *)
 OutboxClasses == {"legit_emb", "legit_ref", "legit_actor_emb", "legit_noid", "legit_stub", "legit_announce",
                   "other_actor", "other_actor_samehost_query", "no_actor", "fetch_fails", "not_activity",
-                  "foreign_claims_owner_id", "actor_fetch_fails"}
+                  "foreign_claims_owner_id", "actor_fetch_fails",
+                  "anon_actor"}            \* an activity without an id performed by an embedded actor without an id: nobody's, not the owner's
 ReplyClasses  == {"legit_emb", "legit_ref", "legit_stub", "other_parent", "no_parent", "parent_fetch_fails",
-                  "fetch_fails", "not_post", "parent_other_host_same_path", "forged_author"}
+                  "fetch_fails", "not_post", "parent_other_host_same_path", "forged_author",
+                  "anon_parent"}           \* a reply without an id whose reply target is an embedded object without an id
 Legit(class) == class \in {"legit_emb", "legit_ref", "legit_actor_emb", "legit_noid", "legit_stub", "legit_announce"}
 
 (* shown[i] \in {"genuine", "error"}: what the real listing showed at position i *)
